@@ -2,6 +2,7 @@ package main
 
 import (
 	"go/constant"
+	"regexp"
 	"go/token"
 	"sort"
 	"strings"
@@ -164,14 +165,16 @@ func (b *bform) dnf(v ssa.Value, want bool, depth int) dnf {
 		}
 		if f != nil && f.Blocks != nil && (b.p.AllFuncs[f] || (f.Origin() != nil && b.p.AllFuncs[f.Origin()])) && depth < 6 && isBoolResult(f) && len(f.Blocks) <= 14 {
 			var out dnf
+			sub := &bform{p: b.p, visited: map[ssa.Value]bool{}}
 			for _, ret := range returnsOf(f) {
-				rd := b.dnf(ret.Results[0], want, depth+2)
+				rd := sub.dnf(ret.Results[0], want, depth+2)
 				if len(rd) == 0 {
 					continue
 				}
-				pc := b.pathCond(ret.Block, nil, f, depth+2)
+				pc := sub.pathCond(ret.Block, nil, f, depth+2)
 				out = dnfOr(out, dnfAnd(pc, rd))
 			}
+			out = substParams(out, f, x.Call.Args)
 			// keep the call itself as an atom too
 			a := atom(v, want)
 			return dnfAnd(a, out)
@@ -360,6 +363,45 @@ func simplifyDNF(d dnf) dnf {
 		if !sub {
 			out = append(out, y)
 		}
+	}
+	return out
+}
+
+
+var identRe = regexp.MustCompile(`[A-Za-z_][A-Za-z0-9_]*`)
+
+// substParams rewrites the atoms of an inlined helper from the callee's parameter names to the caller's argument terms,
+// so that facts established by a boolean helper (e.g. contains(n)) can be matched against the caller's values. Both the
+// original and the substituted atom are kept.
+func substParams(d dnf, f *ssa.Function, args []ssa.Value) dnf {
+	if len(f.Params) != len(args) {
+		return d
+	}
+	repl := map[string]string{}
+	for i, par := range f.Params {
+		if par.Name() == "" || par.Name() == "_" {
+			continue
+		}
+		t := term(args[i])
+		if strings.HasPrefix(t, "&") && par.Type().String() == args[i].Type().String() {
+			// pointer receiver passed as pointer: terms of field access drop the &
+		}
+		repl[par.Name()] = strings.TrimPrefix(t, "&")
+	}
+	var out dnf
+	for _, cj := range d {
+		n := conj{}
+		for a := range cj {
+			n[a] = true
+			sa := identRe.ReplaceAllStringFunc(a, func(id string) string {
+				if r, ok := repl[id]; ok {
+					return r
+				}
+				return id
+			})
+			n[sa] = true
+		}
+		out = append(out, n)
 	}
 	return out
 }
